@@ -5,8 +5,8 @@
    OPERANDS, the wfm/rfm dispatch tables, LANG_TYPES, SECTION_IDS.  The text form is NOT modelled
    (validated by round trip in the check).  [rt w r a] = the writer succeeds with some bytes bb and
    the reader returns (a, rest) from bb ++ rest for every rest. *)
-From PV Require Import Lib.Py Model.WasmTypes Gen.Tab_wasm_opcodes Model.WasmBin Spec.WasmOpcodeSpec
-  Proofs.C21_leb Proofs.C21_instr Proofs.C21_defs Proofs.C21_module Proofs.C21_spec.
+From PV Require Import Lib.Py Model.WasmTypes Gen.Tab_wasm_opcodes Model.WasmBin Model.WasmCanon Spec.WasmOpcodeSpec
+  Proofs.C21_leb Proofs.C21_instr Proofs.C21_defs Proofs.C21_module Proofs.C21_spec Proofs.C21_canon.
 From Coq Require Import String.
 Local Open Scope string_scope.
 Local Open Scope list_scope.
@@ -101,6 +101,67 @@ Theorem c21_module_roundtrip : forall defs bs fuel,
   read_module fuel bs = Ok (canonical_order defs).
 Proof. exact module_roundtrip. Qed.
 Print Assumptions c21_module_roundtrip.
+
+
+(* ---- the other direction: canonical bytes are reproduced byte for byte ----
+   Model.WasmCanon is a strict recognizer of the canonical encoding: minimal LEB128 (at most 5/10
+   bytes), flag bytes in writer form, select 0x1C only with result types, run-length grouped locals,
+   every section at most once / non-empty / in the writer's order / exactly sized, nothing after the
+   last section.  [repro w r]: what [r] accepts is exactly what [w] writes. *)
+Theorem c21_canonical_leb_unsigned : forall bs v rest, suleb bs = Ok (v, rest) ->
+  exists pre, bs = pre ++ rest /\ 0 <= v /\ (1 <= List.length pre)%nat /\
+    forall fuel, (List.length pre <= fuel)%nat -> uleb_enc fuel v = Ok pre.
+Proof. exact suleb_repro. Qed.
+Print Assumptions c21_canonical_leb_unsigned.
+
+Theorem c21_canonical_leb_signed : forall bs v rest, ssleb bs = Ok (v, rest) ->
+  exists pre, bs = pre ++ rest /\ (1 <= List.length pre)%nat /\
+    forall fuel, (List.length pre <= fuel)%nat -> signed_leb128_encode fuel v = Ok pre.
+Proof. exact ssleb_repro. Qed.
+Print Assumptions c21_canonical_leb_signed.
+
+Theorem c21_canonical_immediate : forall key k, repro (write_arg key k) (s_arg key k).
+Proof. exact s_arg_repro. Qed.
+Print Assumptions c21_canonical_immediate.
+
+Theorem c21_canonical_instr : repro write_instruction s_instr.
+Proof. exact s_instr_repro. Qed.
+Print Assumptions c21_canonical_instr.
+
+Theorem c21_canonical_expr : repro write_expression s_expr.
+Proof. exact s_expr_repro. Qed.
+Print Assumptions c21_canonical_expr.
+
+Theorem c21_canonical_func : forall t bs d rest, s_func_def t bs = Ok (d, rest) ->
+  exists pre, bs = pre ++ rest /\ write_definition d = Ok pre /\ tref d = t /\ has_name "func" d = true.
+Proof. exact s_func_def_repro. Qed.
+Print Assumptions c21_canonical_func.
+
+Theorem c21_canonical_section : forall m name id rd bs l rest,
+  u7 id = true -> repro write_definition rd ->
+  write_section m name id = std_write m name id ->
+  filter (has_name name) m = l ->
+  s_section id (s_defs name rd) bs = Ok (l, rest) ->
+  exists pre, bs = pre ++ rest /\ write_section m name id = Ok pre.
+Proof. exact std_section_canon. Qed.
+Print Assumptions c21_canonical_section.
+
+Theorem c21_canonical_module : forall bs m, s_module bs = Ok m ->
+  write_module m = Ok bs /\ canonical_order m = m.
+Proof. exact s_module_repro. Qed.
+Print Assumptions c21_canonical_module.
+
+(* [canonical fuel bs] is a boolean: the strict recognizer accepts bs, the recognised definitions are
+   well-formed, and fuel exceeds their number + 14 *)
+Theorem c21_canonical_bytes : forall fuel bs m,
+  canonical fuel bs = true -> read_module fuel bs = Ok m -> write_module m = Ok bs.
+Proof. exact canonical_bytes. Qed.
+Print Assumptions c21_canonical_bytes.
+
+Theorem c21_canonical_reads : forall fuel bs, canonical fuel bs = true ->
+  exists m, read_module fuel bs = Ok m /\ s_module bs = Ok m.
+Proof. exact canonical_reads. Qed.
+Print Assumptions c21_canonical_reads.
 
 (* ---- the table agrees with the independent reference table of the specification ---- *)
 Theorem c21_opcodes_match_spec :
@@ -200,4 +261,20 @@ Proof.
   - vm_compute in E. injection E as <-. reflexivity.
   - apply c21_module_roundtrip with (fuel := 40%nat) in E; [|vm_compute; reflexivity|cbn; lia].
     rewrite E. vm_compute. reflexivity.
+Qed.
+
+(* non-vacuity of [canonical]: the writer's bytes for the example module are canonical; the same
+   module with its first section size written as a padded LEB (0x88 0x00 instead of 0x08) is still
+   accepted by the reader, reads to the same module, but is NOT canonical *)
+Example c21_canonical_nonvacuous :
+  (exists bs, write_module example_module = Ok bs /\ canonical 40 bs = true) /\
+  (let padded := [0; 97; 115; 109; 1; 0; 0; 0; 0; 136; 0; 4; 110; 97; 109; 101; 1; 2; 3; 1; 4; 1; 96; 0; 0] in
+   read_module 40 padded = Ok [DCustom [110; 97; 109; 101] [1; 2; 3]; DType [] []] /\
+   canonical 40 padded = false /\
+   canonical 40 [0; 97; 115; 109; 1; 0; 0; 0; 0; 8; 4; 110; 97; 109; 101; 1; 2; 3; 1; 4; 1; 96; 0; 0] = true).
+Proof.
+  split.
+  - destruct (write_module example_module) as [bs| | |] eqn:E; try (vm_compute in E; discriminate E).
+    exists bs. split; [reflexivity|]. vm_compute in E. injection E as <-. vm_compute. reflexivity.
+  - vm_compute. repeat split.
 Qed.
